@@ -29,7 +29,11 @@ INNER_WS = ["", "", " ", " ", "\n", "\n  ", "\t", "\r\n ", "  "]
 TYPES = ["article", "Article", "BOOK", "inProceedings", "misc", "a", "x_1", "techreport", "Strin", "commen", "pre"]
 KEYCH = "abcXYZ019.-:_/+"
 SAFE_ATOMS = ["a", "B", "c", "1", "2", " ", " ", "\n", ".", "-", "é", "ß", "\\{", "\\}", '\\"', "\\,", "\\=", "\\x", "\\\\a",
-              "@.", "@ x", "#", "~", ":", "%", "$", "&", "(", ")", "and", "The", "\t", "\r\n", "é", "\U0001d538"]
+              "@.", "@ x", "#", "~", ":", "%", "$", "&", "(", ")", "and", "The", "\t", "\r\n", "é", "\U0001d538",
+              # runs of backslashes before a delimiter: the delimiter is escaped iff the character before it is a backslash
+              "\\\\{", "\\\\}", "\\\\\\{", "\\\\\\}", '\\\\"', '\\\\\\"', "\\\\,", "\\\\\\\\{x\\\\\\\\}", "a@b.c"]
+# near misses of the block-start pattern `@word hws* {`: something other than blanks/tabs between the word and the brace
+NEAR_START = ["@\n", "@w\n ", "a@b\r\n", "@w\x0c", "@w\u00a0", "@w-", "@w \n\t", "@\u2028", "@w."]
 BRACED_EXTRA = [",", "=", '"', ",", "="]
 QUOTED_EXTRA = [",", "="]
 
@@ -51,6 +55,10 @@ def _braced(rng, depth):
     for _ in range(rng.randint(0, 5)):
         r = rng.random()
         if r < 0.2 and depth > 0:
+            if rng.random() < 0.3:
+                t = rng.choice(NEAR_START)
+                out.append(t)
+                ast.extend(_E(t))
             t, a = _braced(rng, depth - 1)
             out.append("{" + t + "}")
             ast.append(a)
@@ -70,6 +78,10 @@ def _quoted(rng, depth):
     for _ in range(rng.randint(0, 5)):
         r = rng.random()
         if r < 0.2 and depth > 0:
+            if rng.random() < 0.3:
+                t = rng.choice(NEAR_START)
+                out.append(t)
+                ast.extend(_E(t))
             t, a = _quoted(rng, depth - 1)
             out.append("{" + t + "}")
             ast.append(a)
@@ -202,7 +214,8 @@ def gen_doc(rng, max_items=8, depth=3, entry_keys=None, string_keys=None, field_
             ast_items.append([3, _E(kw), _E(hws), bast])
         else:
             # free text: starts and ends with a non-whitespace character; may contain any delimiter; no block start
-            atoms = ["foo", "%", "bar", " ", "\n", "{", "}", '"', ",", "=", "@.", "\\", "x", "#", "é", "\t", "b a z"]
+            atoms = ["foo", "%", "bar", " ", "\n", "{", "}", '"', ",", "=", "@.", "\\", "x", "#", "é", "\t", "b a z",
+                     "@w\n{", "@\n {", "a@b\x0c{", "@w\u00a0{", "\\\\{", "\\\\\\{"]
             mid = "".join(rng.choice(atoms) for _ in range(rng.randint(0, 6)))
             raw = rng.choice(["%", "x", "foo", "}", ","]) + ((mid + rng.choice(["y", "%", "}", "=", "Z"])) if rng.random() < 0.7 else "")
             items.append({"kind": "freetext", "raw": raw, "line": line0, "comment": raw})
